@@ -41,6 +41,10 @@ pub trait VF: Fixed + 'static {
     fn cmp_f64(st: usize, a: Self, t: f64, outs: &mut Outs);
     fn lossy_f32(a: Self) -> f32;
     fn lossy_f64(a: Self) -> f64;
+    /// byte views: which 0 le, 1 be, 2 ne
+    fn to_bytes(a: Self, which: u8) -> Vec<u8>;
+    /// `bytes` must have exactly width/8 elements
+    fn from_bytes(bytes: &[u8], which: u8) -> Self;
 }
 
 pub fn ord_out(o: Option<core::cmp::Ordering>) -> Out {
@@ -182,6 +186,22 @@ macro_rules! impl_vf {
             }
             fn lossy_f64(a: Self) -> f64 {
                 <f64 as substrate_fixed::traits::LossyFrom<Self>>::lossy_from(a)
+            }
+            fn to_bytes(a: Self, which: u8) -> Vec<u8> {
+                match which {
+                    0 => a.to_le_bytes().to_vec(),
+                    1 => a.to_be_bytes().to_vec(),
+                    _ => a.to_ne_bytes().to_vec(),
+                }
+            }
+            fn from_bytes(bytes: &[u8], which: u8) -> Self {
+                let mut arr = [0u8; $w / 8];
+                arr.copy_from_slice(bytes);
+                match which {
+                    0 => Self::from_le_bytes(arr),
+                    1 => Self::from_be_bytes(arr),
+                    _ => Self::from_ne_bytes(arr),
+                }
             }
         }
     };
